@@ -56,6 +56,9 @@ def run(ctx, chk):
             if isinstance(n, ast.Assign) and len(n.targets) == 1 \
                     and isinstance(n.targets[0], ast.Name):
                 loc_ = global_root(repo, fi, n.value, alias)
+                if loc_ is None and isinstance(n.value, (ast.Attribute, ast.Subscript)):
+                    # x = self.<class-level container> / cls.<container>[..]: a local alias of it
+                    loc_ = container_key(repo, fi, n.value, alias, first, is_cm)
                 if loc_ is not None:
                     alias[n.targets[0].id] = loc_
         for n in ast.walk(fi.node):
